@@ -27,6 +27,7 @@ static unsigned tok_next = 1;
 static unsigned char live[MAXTOK];
 static char oracle[128];
 static int oracle_pos, oracle_len;
+static int oracle_off;          /* constructions done by the driver itself never fail */
 static char evlog[1 << 16];
 static size_t evlen;
 static char illegal[256];
@@ -50,7 +51,7 @@ static int el_init(void *ptr, const void *src, size_t sz)
 {
 	uint8_t *b = ptr;
 	unsigned tok;
-	if (oracle_pos < oracle_len && oracle[oracle_pos++] == '1') { ev("x", 0, 0); return MPT_ERROR(BadOperation); }
+	if (!oracle_off && oracle_pos < oracle_len && oracle[oracle_pos++] == '1') { ev("x", 0, 0); return MPT_ERROR(BadOperation); }
 	tok = tok_next++;
 	if (src) {
 		unsigned st = rdtok(src);
@@ -77,6 +78,26 @@ static void fini8(void *p) { el_fini(p, 8); }
 static const MPT_STRUCT(type_traits) tr_m4 = { init4, fini4, 4 };
 static const MPT_STRUCT(type_traits) tr_m8 = { init8, fini8, 8 };
 static const MPT_STRUCT(type_traits) tr_n4 = { init4, fini4, 4 };
+#endif
+
+#ifdef DRV_ELEM
+/* "el:<k>": k source elements constructed by the caller; returns buffer or NULL */
+static uint8_t *make_sources(const char *arg, const MPT_STRUCT(type_traits) *t, size_t *len)
+{
+	size_t k;
+	if (strncmp(arg, "el:", 3) || !t || !t->init || !t->fini || drv_parse_nat(arg + 3, &k) || k > 64) return 0;
+	uint8_t *p = malloc(k * t->size + 1);
+	oracle_off = 1;
+	for (size_t i = 0; i < k; i++) t->init(p + i * t->size, 0);
+	oracle_off = 0;
+	*len = k * t->size;
+	return p;
+}
+static void drop_sources(uint8_t *p, const MPT_STRUCT(type_traits) *t, size_t len)
+{
+	for (size_t i = 0; i < len; i += t->size) t->fini(p + i);
+	free(p);
+}
 #endif
 
 static const MPT_STRUCT(type_traits) *traits_by_name(const char *s, int *ok)
@@ -385,6 +406,15 @@ int main(void)
 		else if (!strcmp(op, "insert") && drv_nw == 5) {
 			if (opnd(drv_w[3], h, &a) || data_arg(drv_w[4], h, &dat, &dlen, &isnull)) BAD;
 			void *p = mpt_array_insert(arr, a, dlen);
+#ifdef DRV_ELEM
+			const MPT_STRUCT(type_traits) *bt = arr->_buf ? arr->_buf->_content_traits : 0;
+			if (p && bt && bt->init && bt->size) {
+				/* the caller constructs the inserted elements (as config_item_reserve does) */
+				oracle_off = 1;
+				for (size_t i = 0; i + bt->size <= dlen; i += bt->size) bt->init((uint8_t *) p + i, 0);
+				oracle_off = 0;
+			} else
+#endif
 			if (p && dlen) memcpy(p, dat, dlen);
 			result_ptr(p, h, "-");
 		}
@@ -399,6 +429,16 @@ int main(void)
 				if (opnd(drv_w[4], h, &a) || a > 1000000) BAD;
 				off = (long) a;
 			}
+#ifdef DRV_ELEM
+			if (!strncmp(drv_w[5], "el:", 3)) {
+				uint8_t *src = make_sources(drv_w[5], t, &dlen);
+				if (!src) BAD;
+				void *r = mpt_array_set(arr, t, dlen, src, off);
+				drop_sources(src, t, dlen);
+				result_ptr(r, h, "-");
+				goto done;
+			}
+#endif
 			if (data_arg(drv_w[5], h, &dat, &dlen, &isnull)) BAD;
 			result_ptr(mpt_array_set(arr, t, dlen, isnull ? 0 : dat, off), h, "-");
 		}
@@ -441,6 +481,14 @@ int main(void)
 			}
 		}
 		else if (!strcmp(op, "bset") && drv_nw == 5) {
+#ifdef DRV_ELEM
+			uint8_t *src = 0;
+			const MPT_STRUCT(type_traits) *st = arr->_buf ? arr->_buf->_content_traits : 0;
+			if (!strncmp(drv_w[4], "el:", 3)) {
+				if (opnd(drv_w[3], h, &a) || !(src = make_sources(drv_w[4], st, &dlen))) BAD;
+				dat = src;
+			} else
+#endif
 			if (opnd(drv_w[3], h, &a) || data_arg(drv_w[4], h, &dat, &dlen, &isnull)) BAD;
 			MPT_STRUCT(buffer) *r = arr->_buf;
 			size_t need = r ? r->_used : 0;
@@ -451,6 +499,9 @@ int main(void)
 				arr->_buf = r;
 				result_int(mpt_buffer_set(r, r->_content_traits, a, isnull ? 0 : dat, dlen), "-");
 			}
+#ifdef DRV_ELEM
+			if (src) { drop_sources(src, st, dlen); dat = 0; }
+#endif
 		}
 		else if (!strcmp(op, "printf") && drv_nw == 4) {
 			if (data_arg(drv_w[3], h, &dat, &dlen, &isnull) || isnull || memchr(dat, 0, dlen)) BAD;
@@ -482,6 +533,8 @@ int main(void)
 			result_int(r, detail);
 		}
 		else BAD;
+		goto done;
+done:
 		free(dat); dat = 0;
 next:
 		if (r_have) { r_have = 0; put_state(r_verdict, r_detail, r_ret, r_final); }
